@@ -12,6 +12,7 @@ import (
 var commands = map[string]func([]string) error{
 	"store":     cmdStore,
 	"crash":     cmdCrash,
+	"storeop":   cmdStoreOp,
 	"conc":      cmdConc,
 	"smtp":      cmdSMTP,
 	"rest":      cmdRest,
